@@ -175,6 +175,9 @@ def main():
     except TieError as e:
         print(f"TIE-BROKEN translator: {e}")
         return 3
+    except Exception as e:           # source text outside anything the translators expect: a broken tie, not a crash
+        print(f"TIE-BROKEN translator: cannot read the source ({type(e).__name__}: {e})")
+        return 3
     ch1 = write_if_changed(os.path.join(OUT, "Consts.lean"), c)
     ch2 = write_if_changed(os.path.join(OUT, "Fits.lean"), f)
     ch3 = write_if_changed(os.path.join(OUT, "Fns.lean"), fn)
